@@ -168,10 +168,10 @@ def render_layer(quick_s=15, thorough_s=300):
         except Exception:
             return {"what": "C15 rendering layer", "error": (err or out)[-400:], "violations": []}
         r = {"what": "C15 rendering layer: random abstract machines (2-4 states in shuffled declaration order, 1-3 events, guards, transitions shared "
-                     "by two events, an optional any-group) written as class-body source in 13 declaration styles, executed on the real library "
+                     "by two events, an optional any-group) written as class-body source in 15 declaration styles, executed on the real library "
                      "and compared on states, events, allowed events per step, outcomes and convention-callback traces over random event "
                      "sequences and guard verdicts (bounded, not a proof)",
-             "bound": f"time budget {limit}s, seed {seed}; 5 sequences of <= 6 events per machine; styles: " + ", ".join(res.get("styles", [])),
+             "bound": f"time budget {limit}s (at least 150 machines), seed {seed}; 5 sequences of <= 6 events per machine; styles: " + ", ".join(res.get("styles", [])),
              "evaluations": res.get("cases"), "distinct": res.get("cases"), "seconds": res.get("seconds"), "violations": []}
         if res.get("violation"):
             r["violations"].append({"name": "bounded:C15:two-declaration-styles-give-different-machines", "replay": res.get("replay"),
@@ -294,7 +294,9 @@ def _scans_engine():
 
 PROPERTIES = {
     "C01": {"scans": [_scans_engine], "bounded": [scenario_layer("C01")], "search": scenario_search("C01")},
-    "C02": {"lemmas": [_lemmas_cnt], "scans": [_scans_engine], "bounded": [scenario_layer("C02")], "search": scenario_search("C02")},
+    "C02": {"lemmas": [_lemmas_cnt], "scans": [_scans_engine],
+            # the declaration styles decide in WHICH group a callback is registered (decorator forms, event= strings, conventions)
+            "bounded": [scenario_layer("C02"), render_layer(quick_s=8, thorough_s=60)], "search": scenario_search("C02")},
     "C03": {"scans": [_scans_engine], "bounded": [scenario_layer("C03")], "search": scenario_search("C03")},
     "C04": {"lemmas": [_lemma_not_wedged], "scans": [_scans_engine], "bounded": [scenario_layer("C04")], "search": scenario_search("C04")},
     "C14": {"bounded": [scenario_layer("C14")], "search": scenario_search("C14")},
@@ -304,8 +306,8 @@ PROPERTIES = {
         "bounded": [scenario_layer("C05"), probes("C05", ["C05_sync_driver_keeps_one_loop"])], "search": scenario_search("C05")},
     "C10": {"scans": [_scans_engine], "bounded": [scenario_layer("C10"), probes("C10", ["C10_every_transition_stores_the_target_value"])],
             "search": scenario_search("C10")},
-    "C11": {"bounded": [scenario_layer("C11")], "search": scenario_search("C11")},
-    "C13": {"bounded": [api_layer("C13")], "assumptions": [
+    "C11": {"bounded": [scenario_layer("C11"), probes("C11", ["C11_mixin_resumes_stored_state"])], "search": scenario_search("C11")},
+    "C13": {"bounded": [api_layer("C13"), render_layer(quick_s=8, thorough_s=60)], "assumptions": [
         "TransitionList.unique_events, StateMachine.events / allowed_events and bind_events_to are NOT under contract (the "
         "ordered-dedup invariant did not discharge in the time budget): covered by the bounded API layer only; send, "
         "Event.__call__ and Event.__get__ are proved"]},
@@ -320,7 +322,8 @@ PROPERTIES = {
     "C15": {"bounded": [api_layer("C15"), render_layer(), witnesses("C15", ["C15_any_skips_later_states"])],
             "assumptions": ["builders (to / from_ / itself / any, |, add_transitions, Events.add, factory.add_*, States.from_enum) are not under "
                             "contract yet: the bounded API layer (all renderings of random small abstract machines) stands in"]},
-    "C16": {"bounded": [api_layer("C16"), sig_layer("C16", quick_s=4, thorough_s=60), witnesses("C16", ["C16_subclass_changes_base", "C07_signature_cache_key"])],
+    "C16": {"bounded": [api_layer("C16"), sig_layer("C16", quick_s=4, thorough_s=60), probes("C16", ["C16_registry_by_qualified_name"]),
+                        witnesses("C16", ["C16_subclass_changes_base", "C07_signature_cache_key"])],
             "scans": [lambda: __import__("checker.scans", fromlist=["x"]).scan_ownership()],
             "assumptions": ["ownership table (checker/scans.py) is part of the contract: every heap write site in the package is classified"]},
     "C07": {"lemmas": [lambda: __import__("contracts.signature", fromlist=["x"]).scan_signature_cache_key()],
